@@ -475,8 +475,192 @@ def funds_cases():
     return out
 
 
+# ---------------------------------------------------------------------------------------
+# resolve_address_alias: every address a symbolic target may denote is covered
+
+
+def alias_cases():
+    import halmos.sevm as hs
+    from halmos.exceptions import InfeasiblePath
+
+    out = []
+
+    def harness(interp):
+        ctx = interp.ctx
+        PC = z3.Bool("PC")
+        t = z3.BitVec("target", 160)
+        TEST = hs.FOUNDRY_TEST
+        A1, A2 = z3.BitVecVal(0xAAAA0001, 160), z3.BitVecVal(0xAAAA0002, 160)
+        code = {TEST: "<test>", A1: "<c1>", A2: "<c2>"}
+        oracle = Oracle(ctx, PC)
+        path = RecPath()
+        ex = NS(code=code, alias={}, check=oracle, path=path, pc=9)
+        branches, pushed = [], []
+
+        def create_branch(e, cond, pc):
+            nx = NS(cond=cond, pc=pc, alias=dict(e.alias))
+            branches.append(nx)
+            return nx
+
+        sevm = NS(create_branch=create_branch)
+        stack = NS(push=lambda e: pushed.append(e))
+        try:
+            r = interp.call(hs.SEVM.__dict__["resolve_address_alias"], [sevm, ex, t, stack], {})
+        except InfeasiblePath:
+            # every candidate and the emptiness case were proved impossible under PC (minus the known region)
+            ctx.oblige("InfeasiblePath only if no address outside the test contract is possible", z3.Implies(z3.And(PC, t != TEST), z3.BoolVal(False)))
+            ctx.oblige("nothing pushed on an infeasible path", z3.BoolVal(not pushed and not path.appended))
+            return
+        conds = [b.cond for b in branches] + [c for c, _ in path.appended]
+        ctx.oblige("every successor is pushed; the continuing state gets exactly one branching condition", z3.BoolVal(pushed == branches and len(path.appended) == 1 and path.appended[0][1] is True))
+        # sigma-coverage: whatever address the target denotes, some successor's condition holds
+        ctx.oblige("coverage: every value of the target address is covered by some successor", z3.Implies(PC, z3.Or(*conds)), info={"n": len(conds)})
+        ctx.oblige("coverage outside the known-finding region (target != test contract)", z3.Implies(z3.And(PC, t != TEST), z3.Or(*conds)))
+        # each successor's alias is right under its own condition
+        MISSING = object()
+        aliases = [(b.cond, b.alias.get(t, MISSING)) for b in branches] + [(path.appended[0][0], ex.alias.get(t, MISSING))]
+        ok_alias = True
+        for cnd, al in aliases:
+            if al is MISSING:
+                ok_alias = False
+            elif al is None:
+                ctx.oblige("`no code` alias only where the target differs from every contract address", z3.Implies(cnd, z3.And(*[t != a for a in code])))
+            else:
+                ctx.oblige("alias equals the target under the successor's condition", z3.Implies(cnd, t == al))
+        ctx.oblige("every successor records its alias", z3.BoolVal(ok_alias and (r is ex.alias.get(t))))
+
+    out.append(Case(f"{PROP}/sevm.SEVM.resolve_address_alias", "symbolic target, three contracts", harness, replay=replay_alias, sources=("halmos.sevm:SEVM.resolve_address_alias",)))
+
+    def harness_known(interp):
+        ctx = interp.ctx
+        t = z3.BitVec("target", 160)
+        A1 = z3.BitVecVal(0xAAAA0001, 160)
+        for label, ex, want in (
+            ("target is a key of ex.code", NS(code={A1: "<c1>"}, alias={}), A1),
+            ("alias already chosen on this path", NS(code={A1: "<c1>"}, alias={t: A1}), A1),
+        ):
+            tgt = A1 if label.startswith("target is") else t
+            r = interp.call(hs.SEVM.__dict__["resolve_address_alias"], [NS(), ex, tgt, NS()], {})
+            ctx.oblige(f"no branching: {label}", z3.BoolVal(r is want))
+        ex = NS(code={A1: "<c1>"}, alias={})
+        r = interp.call(hs.SEVM.__dict__["resolve_address_alias"], [NS(), ex, z3.BitVecVal(0xBBBB, 160), NS()], {})
+        ctx.oblige("concrete address without code resolves to `no code`", z3.BoolVal(r is None))
+
+    out.append(Case(f"{PROP}/sevm.SEVM.resolve_address_alias", "no branching needed", harness_known, sources=("halmos.sevm:SEVM.resolve_address_alias",)))
+    return out
+
+
+def replay_alias(r):
+    """real resolve_address_alias on a real Exec: which values of a symbolic target are covered?"""
+    import halmos.sevm as hs
+    from contracts.common import mk_ex, mk_sevm
+
+    sevm = mk_sevm()
+    ex = mk_ex(sevm)
+    TEST = hs.FOUNDRY_TEST
+    A1 = z3.BitVecVal(0xAAAA0001, 160)
+    ex.code = {TEST: hs.Contract(b"\x00"), A1: hs.Contract(b"\x00")}
+    t = z3.BitVec("some_address_argument", 160)
+    stack = hs.Worklist()
+    try:
+        sevm.resolve_address_alias(ex, t, stack)
+    except Exception as e:  # noqa
+        return {"reproduced": None, "detail": f"replay could not drive resolve_address_alias: {type(e).__name__}: {e}"}
+    conds = list(ex.path.conditions)
+    for s_ in stack.stack:
+        conds.append(z3.And(*(list(s_.path.conditions) + list(s_.path.pending))))
+    s = z3.Solver()
+    s.add(z3.Not(z3.Or(*conds)))
+    if s.check() == z3.sat:
+        v = s.model().eval(t, model_completion=True)
+        return {"reproduced": True, "detail": f"resolve_address_alias(target = symbolic address) with contracts at {{test contract {TEST}, {A1}}}: the successors' conditions {conds} do not cover target = {v} although nothing proves it infeasible", "inputs": {"target": str(v)}, "witness_target": str(v)}
+    return {"reproduced": False, "detail": "every value of the target is covered"}
+
+
+# ---------------------------------------------------------------------------------------
+# symbolic JUMP arm of SEVM.run (--symbolic-jump)
+
+
+def symbolic_jump_cases():
+    import ast
+
+    import halmos.bitvec as hb
+    import halmos.sevm as hs
+    from contracts.c06 import run_dispatch_chain, select_arm
+    from halmos.exceptions import InvalidJumpDestError, NotConcreteError
+    from pyvc.interp import Env
+
+    out = []
+    for enabled in (True, False):
+
+        def harness(interp, enabled=enabled):
+            ctx = interp.ctx
+            PC = z3.Bool("PC")
+            dst = z3.BitVec("dst", 256)
+            valid = [4, 9]
+            oracle = Oracle(ctx, PC)
+            branches, pushed = [], []
+
+            def create_branch(e, cond, pc):
+                nx = NS(cond=cond, pc=pc, context=NS(output=NS(error=None, data=None)))
+                branches.append(nx)
+                return nx
+
+            sevm = NS(options=NS(symbolic_jump=enabled), create_branch=create_branch)
+            ex = NS(pgm=NS(valid_jumpdests=lambda: list(valid)), check=oracle, pc=2)
+            state = NS(pop=lambda: hb.HalmosBitVec(dst))
+            stack = NS(push=lambda e: pushed.append(e))
+            sf, fn, first = run_dispatch_chain()
+            env = Env({"self": sevm, "ex": ex, "state": state, "opcode": hs.OP_JUMP, "stack": stack, "insn": NS(opcode=hs.OP_JUMP, next_pc=3)}, None, hs.__dict__)
+            body = select_arm(interp, first, env)
+            kind, payload, _ = interp.exec_fragment(body, env, qual="halmos.sevm:SEVM.run#JUMP-symbolic")
+            if not enabled:
+                ctx.oblige("symbolic jump target without --symbolic-jump: flagged as unsupported (stuck path), never guessed", z3.BoolVal(kind == "raise" and isinstance(payload, NotConcreteError) and not pushed))
+                return
+            is_valid = z3.Or(*[dst == v for v in valid])
+            if kind == "raise":
+                ctx.oblige("InvalidJumpDestError for the whole state only if no valid destination is possible", z3.And(z3.BoolVal(isinstance(payload, InvalidJumpDestError) and not pushed), z3.Implies(PC, z3.Not(is_valid))), info={"exc": type(payload).__name__})
+                return
+            ctx.oblige("arm ends with continue and every branch is pushed", z3.BoolVal(kind == "continue" and pushed == branches))
+            jumps = [b for b in branches if b.context.output.error is None]
+            errs = [b for b in branches if b.context.output.error is not None]
+            ok_each = all(any(JU_is_exactly(b.cond, dst == v) and b.pc == v for v in valid) for b in jumps)
+            ctx.oblige("each jumping successor continues at one valid destination under exactly dst == destination", z3.BoolVal(ok_each))
+            ctx.oblige("coverage: an input that jumps to a valid destination is covered", z3.Implies(z3.And(PC, is_valid), z3.Or(*[b.cond for b in jumps]) if jumps else z3.BoolVal(False)))
+            ctx.oblige("coverage: an input that jumps to an invalid destination ends with InvalidJumpDestError", z3.Implies(z3.And(PC, z3.Not(is_valid)), z3.Or(*[b.cond for b in errs]) if errs else z3.BoolVal(False)))
+            for b in errs:
+                ctx.oblige("a failing successor carries InvalidJumpDestError (delayed, no data yet) only for invalid destinations", z3.And(z3.BoolVal(isinstance(b.context.output.error, InvalidJumpDestError) and b.context.output.data is None), z3.Implies(b.cond, z3.Not(is_valid))))
+
+        out.append(Case(f"{PROP}/sevm.SEVM.run#JUMP-symbolic", f"--symbolic-jump={enabled}", harness, replay=replay_symbolic_jump if enabled else None, sources=("halmos.sevm:SEVM.run",)))
+    return out
+
+
+def JU_is_exactly(q, want):
+    return JU.is_exactly(q, want)
+
+
+def replay_symbolic_jump(r):
+    from contracts.common import mk_ex, mk_sevm
+
+    sevm = mk_sevm(symbolic_jump=True)
+    # 0: CALLVALUE 1: JUMP 2: STOP 3: JUMPDEST 4: STOP
+    ex = mk_ex(sevm, bytes([0x34, 0x56, 0x00, 0x5B, 0x00]))
+    try:
+        outs = list(sevm.run(ex))
+    except Exception as e:  # noqa
+        return {"reproduced": None, "detail": f"replay could not run: {type(e).__name__}: {e}"}
+    conds = [z3.And(*list(o.path.conditions)) if o.path.conditions else z3.BoolVal(True) for o in outs]
+    v = z3.BitVec("msg_value", 256)
+    s = z3.Solver()
+    s.add(z3.Not(z3.Or(*conds)))
+    if s.check() == z3.sat:
+        w = s.model().eval(v, model_completion=True)
+        return {"reproduced": True, "detail": f"program CALLVALUE JUMP STOP JUMPDEST STOP with --symbolic-jump: reported paths {[ (str(c), type(o.context.output.error).__name__) for c, o in zip(conds, outs)]} do not cover msg.value = {w} (an invalid destination: the EVM fails with InvalidJumpDest, halmos reports nothing)", "inputs": {"msg_value": str(w)}}
+    return {"reproduced": False, "detail": "every call value is covered by a reported path"}
+
+
 def build_cases(tier="quick"):
-    return jumpi_cases() + check_cases() + select_cases() + calldataload_cases() + funds_cases()
+    return jumpi_cases() + check_cases() + select_cases() + calldataload_cases() + funds_cases() + alias_cases() + symbolic_jump_cases()
 
 
 ASSUMPTIONS = [
